@@ -199,6 +199,17 @@ namespace {
             }),
             "yield_here");
 
+      // long-lived code: defined once, before every snapshot, and evaluated after every chain operation. Its call
+      // nodes keep whatever they remember about the function table across restores and re-definitions in other orders
+      for (int f = 0; f < N_FN; ++f) {
+        for (int s = 0; s < N_SIG; ++s) {
+          e.eval("def via_f" + std::to_string(f) + "_s" + std::to_string(s) + "() { return f" + std::to_string(f) + "(" + sig_args[s] + ") }");
+        }
+      }
+      for (int g = 0; g < N_GLOB; ++g) {
+        e.eval("def via_g" + std::to_string(g) + "() { return g" + std::to_string(g) + " }");
+      }
+
       Model model;
       std::vector<Model> snap_models;
       std::vector<Engine::State> snap_states;
@@ -257,6 +268,11 @@ namespace {
               if (have ? out != "=i:" + std::to_string(model.fns[f][s]) : !is_err(out)) {
                 bad(oi, "function-overload-differs-from-model", name + "(" + sig_args[s] + ") -> " + out + ", model: " + (have ? std::to_string(model.fns[f][s]) : std::string("absent")));
               }
+              const std::string via = eval_show(e, "via_f" + std::to_string(f) + "_s" + std::to_string(s) + "()");
+              if (have ? via != "=i:" + std::to_string(model.fns[f][s]) : !is_err(via)) {
+                bad(oi, "function-overload-differs-from-model", "through the long-lived caller via_f" + std::to_string(f) + "_s" + std::to_string(s) + "(): " + name + "(" + sig_args[s] + ") -> " + via
+                            + ", model: " + (have ? std::to_string(model.fns[f][s]) : std::string("absent")));
+              }
             }
           }
           for (int g = 0; g < N_GLOB; ++g) {
@@ -264,6 +280,10 @@ namespace {
             const bool have = model.globs.count(g) != 0;
             if (have ? out != "=i:" + std::to_string(model.globs[g]) : !is_err(out)) {
               bad(oi, "global-differs-from-model", "g" + std::to_string(g) + " -> " + out + ", model: " + (have ? std::to_string(model.globs[g]) : std::string("absent")));
+            }
+            const std::string via = eval_show(e, "via_g" + std::to_string(g) + "()");
+            if (have ? via != "=i:" + std::to_string(model.globs[g]) : !is_err(via)) {
+              bad(oi, "global-differs-from-model", "through the long-lived reader via_g" + std::to_string(g) + "(): -> " + via + ", model: " + (have ? std::to_string(model.globs[g]) : std::string("absent")));
             }
           }
           for (int c = 0; c < N_CLASS; ++c) {
